@@ -610,8 +610,9 @@ def boundary_module(rng, quick=True):
     for i, (lo, hi) in enumerate([(1, 65536), (65536, 65536), (0, 65535), (65535, 65535), (1, 65535), (0, 65536), (65535, 65536), (0, 65537)]):
         types.append((f"BSzO{i}", T("OCTET STRING", size=cons(lo, hi))))
         vals[f"BSzO{i}"] = [rb(n) for n in sorted({lo, hi, min(lo + 2, hi)})]
+        if lo > 16385: continue        # element lists that long exceed the drivers' line protocol
         types.append((f"BSzL{i}", T("SEQUENCE OF", elem=T("BOOLEAN"), size=cons(lo, hi))))
-        vals[f"BSzL{i}"] = [[bool(rng.getrandbits(1)) for _ in range(n)] for n in sorted({lo, min(lo + 2, hi)}) if n <= 16385]
+        vals[f"BSzL{i}"] = [[bool(rng.getrandbits(1)) for _ in range(n)] for n in sorted({lo, min(lo + 2, hi)})]
     vals["BExtS"] = [{"a": True}] + [{"a": False, "x": rb(n)} for n in osz]
     vals["BExtC"] = [("a", None)] + [("x", rb(n)) for n in osz]
     return {"name": "BND", "tagdefault": "IMPLICIT", "types": types}, vals
